@@ -37,7 +37,7 @@ def gates(c, tier):
     for k in ("outcome:accepted", "outcome:FilterSyntaxError"):
         if tot and c.get(k, 0) < 0.1 * tot:
             out.append(f"{k} below 10% of cases ({c.get(k, 0)}/{tot})")
-    for k in ("part:random", "part:edits", "part:unbalanced", "part:extra-data", "part:nest", "part:surrogates", "accepted-tree-walked", "accepted-reparsed", "offsets-checked"):
+    for k in ("part:random", "part:edits", "part:unbalanced", "part:extra-data", "part:escape-shapes", "part:nest", "part:surrogates", "accepted-tree-walked", "accepted-reparsed", "offsets-checked"):
         if c.get(k, 0) == 0:
             out.append(f"never ran {k}")
     return out
@@ -170,10 +170,11 @@ def run_shard(ctx: Ctx, acc: Acc):
     ns = max(1, n // 2500)
     for j in range(ns):
         r = ctx.rng("edit", j)
-        tree = gf.g_text_filter(r, r.choice([0, 1, 2]), fan=2, hostile=False)
+        hostile = (j % 2 == 1)
+        tree = gf.g_text_filter(r, r.choice([0, 1, 2]), fan=2, hostile=hostile)
         s = gf.Render(r, decoration=r.random() < 0.3, raw_rate=0.8).sentence(tree)
         if len(s) > 60:
-            tree = gf.g_text_filter(r, 0, fan=2, hostile=False)
+            tree = gf.g_text_filter(r, 0, fan=2, hostile=hostile)
             s = gf.Render(r, decoration=False, raw_rate=0.8).sentence(tree)
         if j == 0:
             acc.sample({"sentence": s, "edits": len(list(gf.edits(s)))})
@@ -187,6 +188,11 @@ def run_shard(ctx: Ctx, acc: Acc):
         for k in idx:
             do("unbalanced", s[:k] + s[k + 1 :])
             do("unbalanced", s[:k] + s[k] * 2 + s[k + 1 :])
+    # substring items whose components decode to text that itself looks like an escape, a star or a backslash
+    if ctx.shard % 4 == 0:
+        for comp in ("\\5c2a", "\\5c5c", "\\2a", "\\5c", "a\\5c2ab", "\\5C28", "\\5c\\32a"):
+            for shape in ("(cn={c}*)", "(cn=*{c})", "(cn=a*{c})", "(cn={c}*b)", "(cn=a*{c}*b)", "(cn=*{c}*)", "(&(cn=a*{c})(sn=x))", "(cn={c})", "(cn>={c})"):
+                do("escape-shapes", shape.format(c=comp))
     # text after a complete filter, with multi-byte characters at every alignment (error reporting must stay total)
     for j in range(max(1, n // 4000)):
         r = ctx.rng("extra", j)
